@@ -338,6 +338,20 @@ theorem concat_rebuildAP : (e : Expr) → ∀ (na : Bool) (i : Nat) (b : Bool),
     have ihl := concat_rebuildAP left
     have ihr := concat_rebuildAP right
     simp only [Expr.rebuildAP, Expr.rebuildA, concat_addTriviaP, concat_binCoreP, concat_cons, text_ws, ihl, ihr]
+  | .ite cond thn els cg aic aig btc btg atc tg bec beg aec eg before after, na, i, b => by
+    have ihc := concat_rebuildAP cond
+    have iht := concat_rebuildAP thn
+    have ihe := concat_rebuildAP els
+    simp only [Expr.rebuildAP, Expr.rebuildA, concat_addTriviaP]
+    congr 1
+    simp only [concat_append, concat_cons, concat_nil, text_tok, text_ws, apply_ite concat, ihc, iht, ihe, List.append_assoc,
+      List.nil_append, List.cons_append, List.append_nil]
+  | .has expr attrs lg rg bq aq before after, na, i, b => by
+    have ihe := concat_rebuildAP expr
+    simp only [Expr.rebuildAP, Expr.rebuildA, concat_addTriviaP]
+    congr 1
+    simp only [concat_append, concat_cons, concat_nil, text_tok, text_ws, ihe, concat_attrP, List.append_assoc,
+      List.nil_append, List.cons_append, List.append_nil]
 theorem concat_rebuildAllP : (es : List Expr) → ∀ (i : Nat) (b : Bool),
     (rebuildAllP es i b).map concat = rebuildAll es i b
   | [], i, b => rfl
@@ -356,6 +370,8 @@ theorem concat_previewP : (e : Expr) → ∀ (i : Nat), (e.previewP i).map conca
   | .lam .., i => rfl
   | .un .., i => rfl
   | .bin .., i => rfl
+  | .ite .., i => rfl
+  | .has .., i => rfl
   | .list value ml inner before after, i => by
     have ihs := fun i b => concat_rebuildAllP value i b
     simp only [Expr.previewP, Expr.preview]
